@@ -211,6 +211,11 @@ func VerifC01Concurrent() {
 	verifapi.SetNow(t0.Add(dt))
 	db.UpdateNodePeers(host, nil, 0)
 	before := w.total()
+	bal := func(id store.NodeID) *big.Int {
+		b, _ := db.GetNodeBalance(id)
+		return new(big.Int).Set(&b.Credit)
+	}
+	hostWas, clientWas := bal(host), []*big.Int{bal(clients[0]), bal(clients[1])}
 	done := make(chan error, 2)
 	w.pay = &PaymentService{NonceStore: db, AccountStore: db, BalanceStore: w.dep}
 	switch verifapi.Param("mode", 0) {
@@ -241,10 +246,34 @@ func VerifC01Concurrent() {
 			done <- err
 		}()
 	}
+	failed := 0
 	for range clients {
-		<-done
+		if err := <-done; err != nil {
+			failed++
+		}
 	}
 	verifapi.Reach("c01.concurrent")
+	if verifapi.Param("mode", 0) == 0 && failed == 0 && !(verifapi.Param("samewallet", 0) == 1) {
+		// C02: each keep-alive credits the shared host elapsed x price / interval and debits its client
+		// exactly that - unless the nodes share balances through wallets, then only the sum is claimed
+		shared := false
+		for _, a := range w.wallets {
+			n := 0
+			for _, id := range w.nodes {
+				if db.IsAccountNode(a, id) == nil {
+					n++
+				}
+			}
+			shared = shared || n > 1
+		}
+		if !shared {
+			exp := new(big.Int).Div(new(big.Int).Mul(big.NewInt(int64(dt)), price), big.NewInt(60000000000))
+			verifapi.Assert(new(big.Int).Sub(bal(host), hostWas).Cmp(new(big.Int).Mul(exp, big.NewInt(2))) == 0, "c02.concurrent.host-credited-by-both-keepalives")
+			for i, c := range clients {
+				verifapi.Assert(new(big.Int).Sub(clientWas[i], bal(c)).Cmp(exp) == 0, "c02.concurrent.client-debited-its-own-charge")
+			}
+		}
+	}
 	if verifapi.KVConflicts() > 0 || verifapi.Param("driver", 0) == 0 { // (the memory driver has no conflicts to explore)
 		verifapi.Reach("c01.concurrent.conflict-path-explored")
 	}
